@@ -22,6 +22,7 @@
 #include <cctype>
 #include <cstdlib>
 #include <cerrno>
+#include <limits>
 
 namespace sbepp::sbeppc
 {
@@ -201,6 +202,14 @@ private:
         }
 
         const auto enc_size = context.size;
+        if(enc_size > (std::numeric_limits<offset_t>::max() - current_offset))
+        {
+            throw_error(
+                "{}: offset ({}) plus size ({}) is too big",
+                f.location,
+                current_offset,
+                enc_size);
+        }
         current_offset += enc_size;
     }
 
@@ -1324,6 +1333,14 @@ private:
         }
 
         const auto enc_size = context.size;
+        if(enc_size > (std::numeric_limits<offset_t>::max() - current_offset))
+        {
+            throw_error(
+                "{}: offset ({}) plus size ({}) is too big",
+                element.location,
+                current_offset,
+                enc_size);
+        }
         current_offset += enc_size;
     }
 
